@@ -38,6 +38,8 @@ Definition put_comp (g : gsys) (h : nat) (s : sys) : gsys :=
 
 Inductive gevent :=
 | GHtlc (rq : request)
+| GBurst (rqs : list request)   (* HTLCs handled concurrently while the table lock is contended: all handle_htlc segments in
+                                   queue order first, the lifecycles' polls after them *)
 | GEv (h : nat) (ev : event)       (* EvProcess / EvDeliver / EvPart / EvPayNewPart / EvPayFinish of hash h *)
 | GTick (dt : N)
 | GHeight (v : N)
@@ -83,8 +85,27 @@ Definition gclassify (w : world) (rq : request) : gclass :=
 Definition map_comps (f : sys -> sys * list output) (g : gsys) : list (nat * sys) * list gout :=
   fold_right (fun x acc => let '(s', o) := f (snd x) in ((fst x, s') :: fst acc, map (lift_out (fst x)) o ++ snd acc)) ([], []) (comps g).
 
+(* the handle_htlc segment alone (no poll), and the hash it touched *)
+Definition gstep_htlc_only (w : world) (g : gsys) (rq : request) : gsys * list gout * option nat :=
+  match gclassify w rq with
+  | KDecodeErr => (g, [GDecodeErr (r_id rq)], None)
+  | KResp r => (g, [GResp (r_id rq) r], None)
+  | KTramp h t => let '(s', o) := step (w_cfg w) (get_comp g h) (EvHtlc (htlc_of rq t)) in (put_comp g h s', map (lift_out h) o, Some h)
+  | KUnknownHash | KPanic => (g, [GOther], None)
+  end.
+
+Fixpoint nodup_nat (l : list nat) : list nat :=
+  match l with [] => [] | x :: r => if existsb (Nat.eqb x) r then nodup_nat r else x :: nodup_nat r end.
+
 Definition gstep (w : world) (g : gsys) (ev : gevent) (sel : bool) : gsys * list gout :=
   match ev with
+  | GBurst rqs =>
+      let '(g1, o1, hs) := fold_left (fun acc rq => let '(ga, oa, ha) := acc in
+                                                     let '(gb, ob, hb) := gstep_htlc_only w ga rq in
+                                                     (gb, oa ++ ob, match hb with Some h => ha ++ [h] | None => ha end)) rqs (g, [], []) in
+      fold_left (fun acc h => let '(ga, oa) := acc in
+                              let '(s', o) := step (w_cfg w) (get_comp ga h) (EvPoll sel) in (put_comp ga h s', oa ++ map (lift_out h) o))
+                (nodup_nat hs) (g1, o1)
   | GHtlc rq =>
       match gclassify w rq with
       | KDecodeErr => (g, [GDecodeErr (r_id rq)])
